@@ -23,8 +23,12 @@ type Op struct {
 }
 
 type Case struct {
-	Surface string `json:"surface"` // raw map set sym
-	Ops     []Op   `json:"ops"`
+	Surface string `json:"surface,omitempty"` // raw map set sym
+	Ops     []Op   `json:"ops,omitempty"`
+	// Kind "" = a history (Surface, Ops); "hash" = hash agreement on all ordered pairs of Keys
+	// ((class, variant) of the pool); "hosteq" = the same on wrappers of Go values (fixed table)
+	Kind string   `json:"kind,omitempty"`
+	Keys [][2]int `json:"keys,omitempty"`
 }
 
 // key classes; class 0 = +0, class 1 = -0 (norm 1 = 0).  Each class has variants that must be
@@ -189,7 +193,37 @@ func (e *env) key(c Case, op Op) goja.Value {
 	return row[op.Kv%len(row)]
 }
 
+func genHashCase(r *vh.Rng) Case {
+	c := Case{Kind: "hash"}
+	nc := 2 + r.Intn(3)
+	seen := map[int]bool{}
+	var classes []int
+	if r.Chance(40) {
+		classes = append(classes, 0, 1)
+		seen[0], seen[1] = true, true
+	}
+	for len(classes) < nc {
+		k := r.Intn(nClasses)
+		if !seen[k] {
+			seen[k] = true
+			classes = append(classes, k)
+		}
+	}
+	for _, k := range classes {
+		for v := range keyVariants[k] {
+			c.Keys = append(c.Keys, [2]int{k, v})
+		}
+	}
+	return c
+}
+
 func genCase(r *vh.Rng) Case {
+	switch r.Pick(1170, 30, 1) {
+	case 1:
+		return genHashCase(r)
+	case 2:
+		return Case{Kind: "hosteq"}
+	}
 	c := Case{Surface: []string{"raw", "map", "set", "sym"}[r.Pick(4, 4, 2, 1)]}
 	n := 1 + r.Intn(60)
 	// restrict the pool per case so that collisions are frequent
@@ -426,7 +460,184 @@ var symShift = 0
 
 func coqKey(k int) string { return fmt.Sprintf("%d%%N", k+symShift) }
 
+// ---------------------------------------------------------------------------------------------
+// hash agreement
+
+type hostT struct{ X int }
+
+// jsvalTerm renders v as a Gallina jsval (constructors of coq/C18/Run.v) from its internal
+// representation (VerifRepr) and its content; objects and symbols get the id the caller assigns.
+func jsvalTerm(v goja.Value, id int, host int) string {
+	nlist := func(xs []uint64) string {
+		items := make([]string, len(xs))
+		for i, x := range xs {
+			items[i] = vh.CoqN(x)
+		}
+		return vh.CoqList(items)
+	}
+	bytesOf := func(s string) []uint64 {
+		var out []uint64
+		for i := 0; i < len(s); i++ {
+			out = append(out, uint64(s[i]))
+		}
+		return out
+	}
+	rep := goja.VerifRepr(v)
+	switch {
+	case strings.HasPrefix(rep, "int:"):
+		var i int64
+		fmt.Sscanf(rep, "int:%d", &i)
+		return fmt.Sprintf("(JInt %s)", vh.CoqZ(i))
+	case strings.HasPrefix(rep, "float:"):
+		var b uint64
+		fmt.Sscanf(rep, "float:%x", &b)
+		return fmt.Sprintf("(JFlt %d%%Z)", b)
+	case rep == "bool":
+		return fmt.Sprintf("(JBool %s)", vh.CoqBool(v.ToBoolean()))
+	case rep == "undefined":
+		return "JUndef"
+	case rep == "null":
+		return "JNull"
+	case rep == "ascii":
+		return fmt.Sprintf("(JAsc %s)", nlist(bytesOf(v.String())))
+	case rep == "unicode":
+		sv := v.(goja.String)
+		var us []uint64
+		for i := 0; i < sv.Length(); i++ {
+			us = append(us, uint64(sv.CharAt(i)))
+		}
+		return fmt.Sprintf("(JUni %s)", nlist(us))
+	case strings.HasPrefix(rep, "imported:"):
+		return fmt.Sprintf("(JImp %s %s)", nlist(bytesOf(v.String())), vh.CoqBool(rep != "imported:unscanned"))
+	case rep == "sym":
+		return fmt.Sprintf("(JSym %d%%N)", id)
+	case rep == "bigint":
+		bi, _ := new(big.Int).SetString(v.String(), 10)
+		if bi == nil || !bi.IsInt64() {
+			panic("bigint out of range: " + v.String())
+		}
+		return fmt.Sprintf("(JBig %s)", vh.CoqZ(bi.Int64()))
+	case strings.HasPrefix(rep, "obj:"):
+		if host >= 0 {
+			return fmt.Sprintf("(JObj %d%%N (Some %d%%N))", id, host)
+		}
+		return fmt.Sprintf("(JObj %d%%N None)", id)
+	}
+	panic("unrenderable value: " + rep)
+}
+
+// gojaNorm returns the key as orderedMap.set stores it: goja's own normalisation.
+func gojaNorm(v goja.Value) goja.Value {
+	m := goja.VerifNewOrderedMap()
+	m.Set(v, v)
+	k, _, ok := m.NewIter().Next()
+	if !ok {
+		panic("set did not store an entry")
+	}
+	return k
+}
+
+func runHashCase(c Case) vh.Record {
+	e := newEnv()
+	type hv struct {
+		v, n  goja.Value
+		class int
+		rep   string
+	}
+	var vals []hv
+	var terms []string
+	tags := map[string]bool{"kind:" + c.Kind: true}
+	add := func(v goja.Value, class, id, host int) {
+		rep := goja.VerifRepr(v)
+		terms = append(terms, fmt.Sprintf("(%d%%N, %s)", class, jsvalTerm(v, id, host)))
+		vals = append(vals, hv{v: v, class: class, rep: rep})
+		if i := strings.IndexByte(rep, ':'); i >= 0 && !strings.HasPrefix(rep, "imported") {
+			rep = rep[:i]
+		}
+		tags["repr:"+rep] = true
+	}
+	if c.Kind == "hosteq" {
+		t1, t2 := &hostT{1}, &hostT{2}
+		sl := &[]interface{}{1, 2}
+		add(e.rt.ToValue(t1), 16, 100, 1)
+		add(e.rt.ToValue(t1), 16, 101, 1)
+		add(e.rt.ToValue(t2), 17, 102, 2)
+		add(e.rt.ToValue(sl), 18, 103, 3)
+		add(e.rt.ToValue(sl), 18, 104, 3)
+		add(e.vals[8][0], 8, 0, -1)
+		for _, x := range vals[:5] {
+			if !strings.Contains(x.rep, "objectGoReflect") && !strings.Contains(x.rep, "objectGoSlice") {
+				panic("not a Go-value wrapper: " + x.rep)
+			}
+		}
+	} else {
+		for _, kv := range c.Keys {
+			row := e.vals[((kv[0]%nClasses)+nClasses)%nClasses]
+			v := row[((kv[1]%len(row))+len(row))%len(row)]
+			add(v, ((kv[0]%nClasses)+nClasses)%nClasses, 0, -1)
+		}
+	}
+	for i := range vals {
+		vals[i].n = gojaNorm(vals[i].v)
+	}
+	var obs []string
+	nSame, nHeq, nPairs, nontrivial := 0, 0, 0, false
+	var bad []string
+	for i, a := range vals {
+		var row []string
+		for j, b := range vals {
+			raw := goja.VerifSameAs(a.v, b.v)
+			same := goja.VerifSameAs(a.n, b.n)
+			heq := goja.VerifHashEq(a.n, b.n)
+			code := 0
+			if raw {
+				code += 4
+			}
+			if same {
+				code += 2
+			}
+			if heq {
+				code++
+			}
+			row = append(row, fmt.Sprint(code))
+			nPairs++
+			if same {
+				nSame++
+				if i != j && a.rep != b.rep {
+					nontrivial = true
+					tags["same-across-representations"] = true
+				}
+				if !heq && len(bad) < 40 {
+					bad = append(bad, fmt.Sprintf("%d,%d", i, j))
+				}
+			}
+			if heq {
+				nHeq++
+			}
+			if a.class != b.class {
+				tags["cross-class-pair"] = true
+			}
+		}
+		obs = append(obs, vh.CoqList(row))
+	}
+	var tl []string
+	for t := range tags {
+		tl = append(tl, t)
+	}
+	return vh.Record{
+		Case: vh.MustJSON(c),
+		Coq:  fmt.Sprintf("mkHash %s %s", vh.CoqList(terms), vh.CoqList(obs)),
+		Obs: fmt.Sprintf("kind=%s vals=%d pairs=%d same=%d hasheq=%d same_but_hash_differs=[%s]",
+			c.Kind, len(vals), nPairs, nSame, nHeq, strings.Join(bad, " ")),
+		Tags:       tl,
+		Nontrivial: nontrivial,
+	}
+}
+
 func runCase(c Case, seed uint64) vh.Record {
+	if c.Kind == "hash" || c.Kind == "hosteq" {
+		return runHashCase(c)
+	}
 	e := newEnv()
 	rng := vh.NewRng(seed)
 	var s surface
